@@ -78,6 +78,38 @@ def inputs(ctx, cases, wd):
     return out
 
 
+def token_bases(cases, n):
+    """the schemas whose single-token mutants are taken: the richest of the family first (rules, second schema,
+    multiple inheritance), then one per type shape"""
+    def rank(c):
+        ch = c["choice"]
+        return (-int(ch["rules"]), -int(ch["aux"]), {"multi": 0, "nestedmi": 1, "chain": 2}.get(ch["inh"], 3), -ch["ak"],
+                json.dumps(ch, sort_keys=True))
+    rich = [c for c in sorted(cases, key=rank) if "nm" not in c["choice"] and c["choice"]["ts"]["k"] == "base"]
+    shapes = [c for c in stratify(cases) if c["choice"]["ts"]["k"] != "base"]
+    out = rich[:max(1, n // 2)]
+    for c in shapes[:: max(1, len(shapes) // max(1, n - len(out)))]:
+        if len(out) < n:
+            out.append(c)
+    return out
+
+
+def token_inputs(ctx, cases, wd, n):
+    """[(tag, path, expect, mutant, schema case)] - every single-token mutant (spec/TokMut.tla) of n schemas of the
+    family.  expect is "valid" for the re-spaced original, "fault" for an undeclared name at a using position and
+    "any" otherwise (the verdict is not prescribed, everything else is)"""
+    from vf import tokmut
+    ind = mkdir(os.path.join(wd, "in"))
+    out = []
+    for b, c in enumerate(token_bases(cases, n)):
+        for k, m in enumerate(tokmut.mutants(express.render(c["schema"]), ctx.work)):
+            p = os.path.join(ind, "k%d_%d.exp" % (b, k))
+            open(p, "w", encoding="latin-1").write(m["text"])
+            mm = {"class": "tok_" + m["op"], "at": "", "pos": "[%s]@%s" % (m["tok"], m["ctx"]), "lexeme": "", "code": "", "stretch": 0}
+            out.append(("k%d_%d" % (b, k), p, m["expect"], mm, c))
+    return out
+
+
 def validate(ctx, lines, wd):
     tp = os.path.join(wd, "trace.ndjson")
     chunks = [lines[i:i + 6000] for i in range(0, len(lines), 6000)]
